@@ -607,7 +607,7 @@ def collect(ctx, prop):
     tag = "%x" % rng.getrandbits(24)
     n = {"C09": (250, 5000), "C10": (900, 20000), "C12": (700, 15000), "C18": (600, 12000), "C07": (800, 15000),
          "C11": (900, 20000), "C14": (800, 20000), "C13": (500, 10000)}.get(prop, (600, 10000))[0 if quick else 1]
-    if prop == "C19":
+    if prop in ("C19", "C03"):
         scen = c19_ref_scenarios(rng, tag, 300 if quick else 6000)
     else:
         scen = [scenario(rng, i, prop, tag) for i in range(n)]
